@@ -23,6 +23,8 @@ type Case struct {
 	Limit  int    `json:"limit"` // 0: default (64 KiB)
 	Mode   string `json:"mode"`  // "read", "conn-nil" (Buffer(nil, M)), "conn-buf" (Buffer(make([]byte,4), M))
 	Chunk  int    `json:"chunk"` // 0 whole; k: k-byte reads; negative: one cut at -k
+	// EOFWithLast: the reader returns io.EOF together with the last bytes (as http bodies with a known length do)
+	EOFWithLast bool `json:"eof_with_last,omitempty"`
 }
 
 // GenP regenerates the stream (streams are long; the replay file stores the recipe).
@@ -74,6 +76,16 @@ func gen(g GenP) string {
 		return small(1) + strings.Repeat("\n", g.K) + sized(g.N-g.K) + small(2)
 	case "sized-crlf":
 		return small(1) + "data: " + pad(g.N-10) + "\r\n\r\n" + small(2)
+	case "keepalives":
+		// comment-only chunks between small events (what servers send to keep idle connections open)
+		var sb strings.Builder
+		for i := 0; sb.Len() < g.N; i++ {
+			sb.WriteString([]string{": ping\n\n", ":\n\n", ":\r\n\r\n", ": a\n: b\n\n"}[i%4])
+			for j := 0; j <= g.K; j++ {
+				sb.WriteString(small(i + j))
+			}
+		}
+		return sb.String()
 	case "many-small":
 		var sb strings.Builder
 		for i := 0; sb.Len() < g.N; i++ {
@@ -139,13 +151,13 @@ func Judge(c Case) (v string) {
 	case c.Chunk < 0 && -c.Chunk < len(s):
 		cuts = []int{-c.Chunk}
 	}
-	desc := fmt.Sprintf("shape=%s n=%d k=%d (stream of %d bytes) limit=%d mode=%s chunk=%d", c.Gen.Shape, c.Gen.N, c.Gen.K, len(s), c.Limit, c.Mode, c.Chunk)
+	desc := fmt.Sprintf("shape=%s n=%d k=%d (stream of %d bytes) limit=%d mode=%s chunk=%d eofWithLast=%v", c.Gen.Shape, c.Gen.N, c.Gen.K, len(s), c.Limit, c.Mode, c.Chunk, c.EOFWithLast)
 	defer func() {
 		if r := recover(); r != nil {
 			v = "C20: panic\x00" + desc + ": panic: " + fmt.Sprint(r)
 		}
 	}()
-	cc := c01.Case{Stream: s, Cuts: cuts, StopAfter: -1, Conn: c.Mode != "read", MaxSize: c.Limit}
+	cc := c01.Case{Stream: s, Cuts: cuts, StopAfter: -1, Conn: c.Mode != "read", MaxSize: c.Limit, EOFWithLast: c.EOFWithLast}
 	got, err, pulled := run(cc, c.Mode)
 	M := limitOf(c)
 	want := ref.Interpret(s, ref.Mode{RetryDispatches: cc.Conn})
@@ -220,7 +232,7 @@ func maxOf(a []int) int {
 }
 
 func run(cc c01.Case, mode string) ([]sse.Event, error, int) {
-	r := &c01.ChunkReader{Data: cc.Stream, Cuts: cc.Cuts}
+	r := &c01.ChunkReader{Data: cc.Stream, Cuts: cc.Cuts, EOFWithLast: cc.EOFWithLast}
 	events, err := c01.RunWith(cc, r, mode == "conn-buf")
 	return events, err, r.Pulled
 }
@@ -237,7 +249,7 @@ var Check = &sqrun.Check{ID: "C20", QuickBudget: 60, ThoroughBudget: 600,
 		add := func(g GenP, limit int, chunks []int) {
 			for _, m := range modes {
 				for _, ch := range chunks {
-					list = append(list, Case{Gen: g, Limit: limit, Mode: m, Chunk: ch})
+					list = append(list, Case{Gen: g, Limit: limit, Mode: m, Chunk: ch}, Case{Gen: g, Limit: limit, Mode: m, Chunk: ch, EOFWithLast: true})
 				}
 			}
 		}
@@ -257,6 +269,13 @@ var Check = &sqrun.Check{ID: "C20", QuickBudget: 60, ThoroughBudget: 600,
 				}
 			}
 			add(GenP{Shape: "many-small", N: 20 * M}, M, chunks)
+			if M >= 16 {
+				for k := 0; k <= 2; k++ {
+					for _, n := range []int{1, 30, 20 * M} {
+						add(GenP{Shape: "keepalives", N: n, K: k}, M, append([]int{2, 5, 7, -9, -10, -11, -20, -21}, chunks...))
+					}
+				}
+			}
 		}
 		// default limit and the scanner's 4 KiB start buffer
 		span := 3
@@ -298,7 +317,7 @@ var Check = &sqrun.Check{ID: "C20", QuickBudget: 60, ThoroughBudget: 600,
 		}
 		cov := ev.Coverage{"evaluations": cases.Load(), "distinct_nontrivial": nontriv.Load(), "exhaustive": true,
 			"samples": []any{list[0], list[len(list)/2], list[len(list)-1]},
-			"rule":    fmt.Sprintf("limits %v via ReadConfig.MaxEventSize, Connection.Buffer(nil, M) and Connection.Buffer(make([]byte,4), M), plus the default 64 KiB and an enlarged 100000; stream shapes (endless line, endless event, only blank lines (LF and CRLF), only comments, an event of size n first / in the middle / last / last without blank line / with CRLF, b blank lines before it, many small events) with n swept over [M-4, M+4] (and around 4096 / 65536 for the default); chunkings whole, 1-byte, 3-byte, one cut at M-1 / M / M+1 (4096 / 4097 / 1000 for the long ones); all through a counting reader. Every case is distinct by construction and non-trivial (each stream contains events or exceeds the limit).", limits)}
+			"rule":    fmt.Sprintf("limits %v via ReadConfig.MaxEventSize, Connection.Buffer(nil, M) and Connection.Buffer(make([]byte,4), M), plus the default 64 KiB and an enlarged 100000; stream shapes (endless line, endless event, only blank lines (LF and CRLF), only comments, an event of size n first / in the middle / last / last without blank line / with CRLF, b blank lines before it, comment-only keep-alive chunks (LF and CRLF, one and two lines) between small events, many small events) with n swept over [M-4, M+4] (and around 4096 / 65536 for the default); chunkings whole, 1-byte, 3-byte, one cut at M-1 / M / M+1 (4096 / 4097 / 1000 for the long ones); each with io.EOF returned separately and together with the last bytes; all through a counting reader. Every case is distinct by construction and non-trivial (each stream contains events or exceeds the limit).", limits)}
 		return &sqrun.Outcome{Level: "exploration", Coverage: cov, Assumptions: []string{
 			"an event whose size (including the blank lines before it) equals or exceeds the limit may be reported as too long or delivered intact; it may never be delivered truncated",
 			"'the last completed event' is the end of the last block (blank lines + lines + terminating blank line) before the oversized one",
